@@ -113,6 +113,14 @@ def inv2 [Sub K] [Mul K] [Neg K] [Div K] (m : Mat K) : Mat K :=
     | _, 0 => -(m 1 0) / det
     | _, _ => m 0 0 / det
 
+/-- `np.diag([eps**2, 1/eps**2])`: measurement covariance of `homodyne` / `post_select_homodyne`
+(the bosonic circuit multiplies by `hbar/2 = 1`) -/
+def homodyneCov [Zero K] [One K] [Mul K] [Div K] (eps : K) : Mat K :=
+  fun a b => if a = b then (if a = 0 then eps * eps else 1 / (eps * eps)) else 0
+
+/-- `np.identity(2)`: measurement covariance of the heterodyne measurement -/
+def heterodyneCov [Zero K] [One K] : Mat K := fun a b => if a = b then 1 else 0
+
 /-- data in the quadrature picture: covariance matrix and mean vector (xpxp ordering, hbar = 2) -/
 structure PS (K : Type) where
   cov : Mat K
@@ -142,6 +150,10 @@ def bosonicDyneComp (tot : Nat) (del : List Nat) (V : Mat K) (r : Vec K) (W : Ma
   let vc := chopVecB r del
   { cov := reassembleB (schur A B W k) ((tot - k) + k) del
     mean := reassembleVecB (condMean va B W vm vc k) ((tot - k) + k) del }
+
+/-- bosonic `post_select_generaldyne` (after the `fix:` commit): `len(modes) == len(self.active)` — every stored
+mode is measured: the modes are reset by `loss(0, i)`, nothing is conditioned, the weights stay as they are -/
+def bosonicAllMeasured (tot : Nat) (modes : List Nat) : Bool := 2 * modes.length == tot
 
 /-- the quadratic form `(vals − vc)ᵀ W (vals − vc)` of one component (exponent of its re-weighting) -/
 def bosonicQuad (del : List Nat) (r : Vec K) (W : Mat K) (vm : Vec K) : K :=
